@@ -11,7 +11,7 @@ from harness.algebras import all_var_names, mclass, mshape, natural_key, vclass,
 from harness.scalars import FUNCS, VEC_FUNCS
 
 SCALAR_NAMES = ["x", "y", "x1", "x2", "x10", "w9", "w10", "a", "B2", "z"]
-VECTOR_NAMES = ["v", "u", "x", "w"]
+VECTOR_NAMES = ["v", "u", "x", "w", "x2", "x10"]
 MATRIX_NAMES = ["A", "S", "M"]
 PARAM_NAMES = ["p", "q"]
 
